@@ -16,12 +16,16 @@
 #include <stdexcept>
 
 #include "../Util/TypeTraits.h"
+#include "../Util/VerifHooks.h"
 
 namespace Spectra {
 
 template <typename Scalar = double>
 class TridiagEigen
 {
+#ifdef SPECTRA_VERIF
+    friend struct ::SpectraVerifAccess;
+#endif
 private:
     using Index = Eigen::Index;
     // For convenience in adapting the tridiagonal_qr_step() function
